@@ -497,6 +497,8 @@ static void sched_point(void)
 		next = list[n > 1 ? sim_choose(n) : 0];
 	} else if (rt.since_switch > FAIR_BOUND) {
 		next = list[(me + 1) % n];	/* fairness bound: a spinner cannot starve the others */
+		if (rt.strat == SIMRT_STRAT_PCT)
+			rt.ctx[rt.cur].prio = rt.low_prio--;	/* demote the hog, or it is picked again at once */
 	} else {
 		switch (rt.strat) {
 		case SIMRT_STRAT_RANDOM:
@@ -588,6 +590,15 @@ void simrt_irq_plan(uint32_t n, uint32_t max_gap)
 	rt.irq_next_at = rt.points + 1 + (n ? rt.irq_gap[0] : 0);
 }
 
+/* from now on the planned interrupts that have not fired yet come densely (gaps below max_gap) */
+void simrt_irq_densify(uint32_t max_gap)
+{
+	for (uint32_t i = rt.irq_fired; i < rt.irq_planned; i++)
+		rt.irq_gap[i] = sim_choose(max_gap ? max_gap : 1);
+	if (rt.irq_fired < rt.irq_planned)
+		rt.irq_next_at = rt.points + 1 + rt.irq_gap[rt.irq_fired];
+}
+
 void simrt_irq_set_gap(uint32_t i, uint32_t gap)
 {
 	if (i < 32) {
@@ -608,8 +619,44 @@ static uint32_t alog_n;
 uint32_t simrt_alog_len(void) { return alog_n; }
 const simrt_alog_t *simrt_alog(uint32_t i) { return i < alog_n ? &alog[i] : NULL; }
 
+/* counts of RMW operations on one watched address, per context and interrupt depth (an oracle
+ * or environment model can follow e.g. the releases of a queue without naming any symbol) */
+static uintptr_t watch_addr;
+static uint32_t watch_cnt[SIMRT_MAXCTX][4];
+
+void simrt_watch_addr(uintptr_t a)
+{
+	watch_addr = a;
+	memset(watch_cnt, 0, sizeof(watch_cnt));
+}
+
+uint32_t simrt_watch_count(int ctx, int depth)
+{
+	return watch_cnt[ctx & (SIMRT_MAXCTX - 1)][depth & 3];
+}
+
+/* "which address did the first RMW of this call target?" - independent of the log's capacity */
+static uintptr_t first_rmw;
+static int first_rmw_ctx = -1;
+
+void simrt_mark_rmw(void)
+{
+	first_rmw = 0;
+	first_rmw_ctx = rt.cur;
+}
+
+uintptr_t simrt_first_rmw(void)
+{
+	first_rmw_ctx = -1;
+	return first_rmw;
+}
+
 static void alog_add(uintptr_t a, int kind, int mo)
 {
+	if (first_rmw_ctx == rt.cur && !first_rmw && (kind == 2 || kind == 3))
+		first_rmw = a;
+	if (watch_addr && a == watch_addr && (kind == 2 || kind == 3))
+		watch_cnt[rt.cur & (SIMRT_MAXCTX - 1)][rt.irq_depth & 3]++;
 	if (alog_n < ALOG_CAP) {
 		alog[alog_n].seq = rt.points;
 		alog[alog_n].addr = a;
@@ -638,6 +685,8 @@ void simrt_run_begin(void)
 	shadow_used = 0;
 	nreg = 0;
 	alog_n = 0;
+	watch_addr = 0;
+	first_rmw_ctx = -1;
 	rt.mode = SIMRT_SEQ;
 	rt.nctx = 1;
 	rt.cur = 0;
